@@ -49,10 +49,11 @@ def _gauss(c, name, mean, form, n, param='cov', geometry=None):
 def _target(c, m, n, noise_form, prior_form, prior_kind, backing, nlik, noise_param='cov', prior_param='cov'):
     liks = []
     for k in range(nlik):
-        A = c.mat(f'A{k}_', m, n)
-        model = LinearModel(A) if backing == 'matrix' else LinearModel(lambda x, A=A: A @ x, lambda y, A=A: A.T @ y, range_geometry=m, domain_geometry=n)
-        data = c.vec(f'y{k}_', m)
-        dd = _gauss(c, f'noise{k}', model, noise_form, m, noise_param, geometry=m); dd.name = f'y{k}'
+        mk = m if k == 0 else max(1, m - k)          # later likelihoods have a different number of data points
+        A = c.mat(f'A{k}_', mk, n); m_k = mk
+        model = LinearModel(A) if backing == 'matrix' else LinearModel(lambda x, A=A: A @ x, lambda y, A=A: A.T @ y, range_geometry=m_k, domain_geometry=n)
+        data = c.vec(f'y{k}_', m_k)
+        dd = _gauss(c, f'noise{k}', model, noise_form, m_k, noise_param, geometry=m_k); dd.name = f'y{k}'
         liks.append(dd.to_likelihood(data))
     if prior_kind == 'Gaussian':
         prior = _gauss(c, 'prior', c.vec('mu', n), prior_form, n, prior_param); prior.name = 'x'
@@ -182,7 +183,7 @@ def jobs(tier):
         fl = [f'{mod}:LinearRTO._precompute', f'{mod}:LinearRTO.step'] if iface == 'exp' else [f'{mod}:LinearRTO.__init__', f'{mod}:LinearRTO._sample']
         fl += ['cuqi.distribution._gaussian:Gaussian.sqrtprecTimesMean', 'cuqi.distribution._gmrf:GMRF.sqrtprec', 'cuqi.distribution._gmrf:GMRF.sqrtprecTimesMean']
         cfgs = [(2, 2, 'scalar', 'scalar', 'Gaussian', 'matrix', 1), (3, 2, 'vector', 'vector', 'Gaussian', 'functions', 1), (1, 2, 'scalar', 'vector', 'Gaussian', 'matrix', 1),
-                (2, 2, 'scalar', 'scalar', 'Gaussian', 'matrix', 2), (2, 3, 'vector', None, 'GMRF', 'matrix', 1)]
+                (2, 2, 'scalar', 'scalar', 'Gaussian', 'matrix', 2), (3, 2, 'vector', 'scalar', 'Gaussian', 'functions', 3), (2, 3, 'vector', None, 'GMRF', 'matrix', 1)]
         if not q: cfgs += [(2, 2, 'dense', 'dense', 'Gaussian', 'matrix', 1), (2, 2, 'vector', 'dense', 'Gaussian', 'functions', 2), (3, 1, 'scalar', 'scalar', 'Gaussian', 'matrix', 1)]
         for (m, n, nf, pf, pk, backing, nlik) in cfgs:
             J.append(Job(f'{tag}.LinearRTO:m={m}:n={n}:noise={nf}:prior={pk}/{pf}:{backing}:likelihoods={nlik}',
